@@ -9,6 +9,7 @@ code -> spec : the file-handle calls of every replayed operation are recorded (h
 """
 import json
 import os
+import re
 import shutil
 import struct
 import traceback
@@ -401,21 +402,17 @@ def validate_traces(traces, work, batch=4000):
                         timeout=1800)
         if res.generated == 0:
             raise T.TLCError("trace validation did not run:\n" + res.out[-3000:])
-        done = {}
-        prog = None
-        for line in res.out.splitlines():
-            if line.startswith('<<"DONE"'):
-                parts = line.strip("<>").split(", ")
-                done[int(parts[1])] = [p == "TRUE" for p in parts[2:7]]
-            elif line.startswith('<<"PROGRESS"'):
-                inner = line[line.index("<<", 3) + 2: line.rindex(">>") - 2] if line.count("<<") > 1 else ""
-                prog = [int(x) for x in inner.replace(">", "").split(",") if x.strip().lstrip("-").isdigit()]
+        done, prog = {}, {}
+        for m in re.finditer(r'<<\s*"DONE",\s*(\d+),((?:\s*(?:TRUE|FALSE)\s*,?)+)\s*>>', res.out):
+            done[int(m.group(1))] = [x == "TRUE" for x in re.findall(r"TRUE|FALSE", m.group(2))]
+        for m in re.finditer(r'<<\s*"PROG",\s*(\d+),\s*(\d+)\s*>>', res.out):
+            prog[int(m.group(1)) - 1] = int(m.group(2))
         for i, t in enumerate(chunk):
             v = {"accepted": (i + 1) in done, "states": None}
             if v["accepted"]:
                 o, r, s, intact, idle = done[i + 1]
                 v.update(openable=o, rows_readable=r, strict=s, intact=intact, idle=idle)
-            elif prog and i < len(prog):
+            elif prog and i in prog:
                 v["matched"] = prog[i] - 1
                 v["next_event"] = t["events"][prog[i] - 1] if 0 < prog[i] <= len(t["events"]) else None
             verdicts[b0 + i] = v
